@@ -20,6 +20,9 @@ at the top-level directory.
  *   
  */
 #include "slu_mt_cdefs.h"
+#ifdef SLU_MT_VERIF
+#include "slu_mt_verif.h"
+#endif /* SLU_MT_VERIF */
 
 /* ------------------
    Constants & Macros
@@ -959,6 +962,9 @@ cPresetMap(
     printf("** PresetMap() allocates " IFMT " reals to lusup[*]....\n", nextpos);
 #endif
 
+#ifdef SLU_MT_VERIF
+    SLUV_SLOTS(n, map_in_sup, Glu->dynamic_snode_bound == YES, nextpos);
+#endif /* SLU_MT_VERIF */
     free (marker);
     return nextpos;
 }
